@@ -93,6 +93,9 @@ type hist = {
   mutable benign : bool; mutable sentinel : string; mutable prev_tpath : (string * int) list; mutable prev_twd : (int * string) list;
   mutable last_was_process : bool; mutable dead : bool;
   mutable ended_watches : string list;   (* C09 bookkeeping *)
+  mutable emitted : (int * int * string) list;          (* every kernel record seen so far: wd, mask, name *)
+  mutable stores : (int * string * int) list;           (* move-outs delivered so far: cookie, name, serial *)
+  mutable nstores : int;
 }
 
 let split_kinds impl model =
@@ -142,7 +145,7 @@ let () =
       let recurse = field "recurse=" rest = "1" and cwd = unhex (field "cwd=" rest) in
       cur := Some { id = int_of_string id; cfg = { c_recurse = recurse; c_cwd = chars_of_string cwd }; s = x_init; stepno = 0;
                     confirmed = 0; benign = true; sentinel = ""; prev_tpath = []; prev_twd = []; last_was_process = false; dead = false;
-                    ended_watches = [] };
+                    ended_watches = []; emitted = []; stores = []; nstores = 0 };
       bump (if recurse then "histories_recursive" else "histories_plain")
     | ["end"], Some _ -> finish ()
     | _, Some h when h.dead -> ()
@@ -190,6 +193,7 @@ let () =
     | ["kemit"; wd; mask; cookie; len; name], Some h ->
       let r = raw_of_fields wd mask cookie len name in
       bump "kernel_records"; bump ("namelen_mod16_" ^ string_of_int (String.length (unhex name) mod 16));
+      h.emitted <- (int_of_string wd, int_of_string mask, unhex name) :: h.emitted;
       if not (x_env_ok h.s (KEmit r)) then emit "KERNEL" "emit-for-dead-mark" h.id h.stepno (raw_str r);
       h.s <- fst (x_step h.cfg h.s (KEmit r)); h.confirmed <- h.confirmed + 1
     | ["krelease"; wd; ds], Some h ->
@@ -261,8 +265,11 @@ let () =
       if List.length recs <> String.length parts then begin
         emit "MISMATCH" "decode-count" h.id h.stepno (Printf.sprintf "parts=%s decoded=%d" parts (List.length recs)); h.dead <- true end
       else begin
+        let per_record = ref [] in
         List.iteri (fun i r ->
-          match parts.[i] with
+          let n_before = List.length (x_outs h.s) in
+          let twd_before = x_twd h.s and tpath_before = x_tpath h.s in
+          (match parts.[i] with
           | 'R' ->
             (match x_kq h.s with
              | m :: _ when raw_eq m r -> ()
@@ -270,7 +277,9 @@ let () =
              | [] -> emit "KERNEL" "queue-empty" h.id h.stepno (raw_str r));
             h.s <- fst (x_step h.cfg h.s (SHandle dirs)); h.confirmed <- max 0 (h.confirmed - 1)
           | 'S' -> h.s <- fst (x_step h.cfg h.s (SInject (r, dirs)))
-          | _ -> h.benign <- false; bump "injected_records"; h.s <- fst (x_step h.cfg h.s (SInject (r, dirs)))) recs;
+          | _ -> h.benign <- false; bump "injected_records"; h.s <- fst (x_step h.cfg h.s (SInject (r, dirs))));
+          let produced = List.filteri (fun j _ -> j >= n_before) (x_outs h.s) in
+          per_record := (parts.[i], r, produced, twd_before, tpath_before) :: !per_record) recs;
         let all = x_outs h.s in
         let fresh = List.filteri (fun i _ -> i >= before) all in
         let sent = Printf.sprintf "E:%s:256:-" (hex h.sentinel) in
@@ -281,6 +290,40 @@ let () =
         if status <> "ok" then emit "MISMATCH" ("reader-" ^ status) h.id h.stepno "";
         if impl <> model then
           List.iter (fun k -> emit "MISMATCH" ("out-" ^ k) h.id h.stepno (Printf.sprintf "impl=%s model=%s" (pretty impl) (pretty model))) (split_kinds impl model);
+        if impl = model && not h.cfg.c_recurse then
+          List.iter (fun (part, r, produced, twd_before, tpath_before) ->
+            let mask = int_of_n r.r_mask and cookie = int_of_n r.r_cookie in
+            let evs = List.filter_map (function OEv (n, op, f) -> Some (string_of_chars n, int_of_n op, string_of_chars f) | _ -> None) produced in
+            let evs = List.filter (fun (n, op, _) -> not (n = h.sentinel && op = 256)) evs in
+            (* C11: a move between listed names carries the old name; anything else carries none *)
+            (match evs with
+             | [(n, _, f)] when cookie <> 0 && mask land 0x40 <> 0 ->
+               h.nstores <- h.nstores + 1; h.stores <- (cookie, n, h.nstores) :: h.stores
+             | [(n, _, f)] when cookie <> 0 && mask land 0x80 <> 0 ->
+               (match List.find_opt (fun (c, _, _) -> c = cookie) h.stores with
+                | Some (_, old, serial) ->
+                  if f <> old then begin
+                    let between = h.nstores - serial in
+                    if between >= 10 then emit "SPEC" "C11-ring-overrun" h.id h.stepno (Printf.sprintf "new=%s expected_old=%s got=%s move-outs-in-between=%d" (String.escaped n) (String.escaped old) (String.escaped f) between)
+                    else emit "SPEC" "C11-lost-partner" h.id h.stepno (Printf.sprintf "new=%s expected_old=%s got=%s move-outs-in-between=%d" (String.escaped n) (String.escaped old) (String.escaped f) between) end
+                | None -> if f <> "" then emit "SPEC" "C11-false-partner" h.id h.stepno (Printf.sprintf "new=%s got=%s" (String.escaped n) (String.escaped f)))
+             | [(n, _, f)] when f <> "" -> emit "SPEC" "C11-false-partner" h.id h.stepno (Printf.sprintf "name=%s got=%s mask=%x" (String.escaped n) (String.escaped f) mask)
+             | _ -> ());
+            (* C01/C09: a suppressed IN_DELETE_SELF must really be reported by the listed parent *)
+            if part = 'R' && mask land 0x400 <> 0 && evs = [] then begin
+              match List.find_opt (fun (wd, _) -> int_of_n wd = int_of_n r.r_wd) twd_before with
+              | Some (_, w) ->
+                let path = string_of_chars w.w_path in
+                let parent = (match String.rindex_opt path '/' with Some 0 -> "/" | Some i -> String.sub path 0 i | None -> ".") in
+                let base = (match String.rindex_opt path '/' with Some i -> String.sub path (i+1) (String.length path - i - 1) | None -> path) in
+                (match List.find_opt (fun (p, _) -> string_of_chars p = parent) tpath_before with
+                 | Some (_, pwd) ->
+                   let pwd = int_of_n pwd in
+                   if not (List.exists (fun (wd, m, nm) -> wd = pwd && m land 0x200 <> 0 && nm = base) h.emitted) then
+                     emit "SPEC" "C01-delete-self-suppressed-but-parent-never-reported" h.id h.stepno (Printf.sprintf "path=%s parent=%s" (String.escaped path) (String.escaped parent))
+                 | None -> ())
+              | None -> ()
+            end) (List.rev !per_record);
         (* ---- specification-level predicates on the implementation's own outputs ---- *)
         List.iter (fun o ->
           match String.split_on_char ':' o with
